@@ -56,6 +56,17 @@ theorem connectionMade_spec (c : Nat) (v : World) (hms : v.ms = .CONNECTING) (ht
   rw [e1 _ hms']
   simp only [andThen]
   unfold useConnection
+  generalize hU : ({ v with timer := t0, tt := tt0, ms := Manager.State.CONNECTED, conn := some c } : World) = U
+  have hcs : U.coopStopped = false := by rw [← hU]; exact htm.coopRunning
+  obtain ⟨op, prs, e⟩ := resumeAll_same U
+  have hok := resumeAll_ok U hcs
+  rcases hp : resumeAll U with ⟨x, er⟩
+  rw [hp] at e hok
+  simp only at e hok
+  subst hok
+  subst e
+  simp only [andThen]
+  rw [← hU]
   dsimp only
   split
   · exact ⟨v.queue, fun t ht => ht, rfl⟩
